@@ -785,6 +785,20 @@ impl World {
                     s.probed_after_terminal = false;
                 }
             }
+            StepOut::Err(_) => {
+                // choosing a mechanism the session did not offer is a denied step (the session
+                // selects no credential handler and ends); the client sees it as an error answer
+                if let St::Begin(mi) = last.st {
+                    let accepted_before = s.steps[..k].iter().any(|l| matches!(l.st, St::Begin(_)) && matches!(l.out, StepOut::Continue(_)));
+                    if s.terminal.is_none() && s.sid.is_some() && !s.offered.is_empty() && !accepted_before && !s.offered.contains(&MECHS[mi]) {
+                        s.terminal = Some("refused-mechanism-choice");
+                        s.probed_after_terminal = false;
+                        if count {
+                            acc.count("refused_mechanism_choice");
+                        }
+                    }
+                }
+            }
             _ => {}
         }
     }
